@@ -20,6 +20,8 @@ type Faults struct {
 	fullUntil      []time.Time
 	hot            int // a trigger just fired: raise the fault probability for a few steps
 	hotNode        int
+	blipUntil      time.Time // a short cut-off of one server that ends by itself
+	blipNode       int
 }
 
 func newFaults(w *World, n int) *Faults {
@@ -88,6 +90,14 @@ func (f *Faults) expire() {
 				w.event("unstall s%d", i)
 			}
 		}
+	}
+	if !f.blipUntil.IsZero() && !now.Before(f.blipUntil) {
+		f.blipUntil = time.Time{}
+		for j := range w.nodes {
+			w.net.blocked[f.blipNode][j] = false
+			w.net.blocked[j][f.blipNode] = false
+		}
+		w.event("blip s%d ends", f.blipNode)
 	}
 	for i, t := range f.fullUntil {
 		if !t.IsZero() && !now.Before(t) {
@@ -166,6 +176,39 @@ func (f *Faults) inject(kind string) {
 		}
 		w.stats.fault("isolate_leader")
 		w.event("fault isolate leader s%d", l.idx)
+	case "blip_leader":
+		// the leader loses all its links for a few heartbeat intervals, shorter than its lease:
+		// requests in flight fail in the transport, then everything works again and the
+		// leader keeps leading
+		l := f.leader()
+		if l == nil || !f.blipUntil.IsZero() || w.net.anyBlocked() {
+			return
+		}
+		for j := 0; j < nn; j++ {
+			if j != l.idx {
+				w.net.blocked[l.idx][j] = true
+				w.net.blocked[j][l.idx] = true
+			}
+		}
+		d := time.Duration(1+w.ch.Choose(simrt.SFault, 4)) * w.cfg.HeartbeatTimeout / 20
+		f.blipUntil, f.blipNode = time.Now().Add(d), l.idx
+		w.stats.fault("leader_link_blip")
+		w.event("fault blip leader s%d for %v", l.idx, d)
+	case "isolate_hot":
+		// cut off the server a trigger just pointed at (e.g. the target of a leadership transfer
+		// right after TimeoutNow reached it), else a random one
+		a := f.pickNode()
+		if f.hot > 0 {
+			a = w.nodes[f.hotNode]
+		}
+		for j := 0; j < nn; j++ {
+			if j != a.idx {
+				w.net.blocked[a.idx][j] = true
+				w.net.blocked[j][a.idx] = true
+			}
+		}
+		w.stats.fault("isolate_server")
+		w.event("fault isolate s%d", a.idx)
 	case "asym_partition":
 		a := f.pickNode()
 		if l := f.leader(); l != nil && w.ch.Choose(simrt.SFault, 2) == 0 {
@@ -279,6 +322,7 @@ func (f *Faults) quiet() {
 		w.or.onHeal()
 	}
 	w.net.quiet()
+	f.blipUntil = time.Time{}
 	for i, n := range w.nodes {
 		n.disk.failAll = false
 		n.disk.failOnce = map[string]int{}
